@@ -373,6 +373,9 @@ def file_damages(w: World) -> List[Tuple[str, str, Tuple[Any, ...]]]:
         n = len(raw)
         cuts = set(avro_cuts(raw)) if cls in ("manifest", "manifest_list") else set()
         cuts |= {1, n // 4, n // 2, 3 * n // 4, n - 1}
+        # a grid over the whole file plus every offset of the tail: some parsers treat particular tail cuts
+        # (inside the last block, inside the sync marker) differently from a cut in the middle
+        cuts |= set(range(8, n, 16)) | set(range(max(1, n - 48), n))
         out.append((rel, cls, ("missing",)))
         out.append((rel, cls, ("truncate", 0)))
         out += [(rel, cls, ("truncate", c)) for c in sorted(cuts) if 0 < c < n]
@@ -595,6 +598,8 @@ def run(tier: str, seed: int) -> Report:
     rep = Report(PROP, tier, seed, LEVEL)
     backends = ["local"] if tier == "quick" else ["local", "s3"]
     pls = [(part, tier, seed, b) for b in backends for part in ("a", "b", "c")]
+    if tier == "quick":
+        pls += [("a", tier, seed, "s3"), ("c", tier, seed, "s3")]  # request-level faults on the object store are cheap
     if seed:
         pls = pls[seed % len(pls):] + pls[:seed % len(pls)]
     fails: List[Any] = []
